@@ -26,6 +26,7 @@ func init() {
 		NotCovered: "that struct declaration order equals source order for every node type (repo convention), and trees that violate the documented nil-ness of fields.",
 		Run:        runC18,
 		Controls: []Control{
+			{Name: "recv-walked-unless-class", File: "ast/walk.go", Old: "\t\t\tif n.Recv != nil {\n\t\t\t\tWalk(v, n.Recv)\n", New: "\t\t\tif n.Recv != nil && !n.IsClass {\n\t\t\t\tWalk(v, n.Recv)\n", Expect: "walk-guard/FuncDecl.Recv"},
 			{Name: "drop-case-RangeExpr", File: "ast/walk.go", Old: "case *RangeExpr:\n\t\tif n.First != nil {\n\t\t\tWalk(v, n.First)\n\t\t}", New: "case *rangeExprX:\n\t\tif n.First != nil {\n\t\t\tWalk(v, n.First)\n\t\t}", Expect: "load/github.com/goplus/xgo/ast"},
 			{Name: "drop-field-SliceExpr.Max", File: "ast/walk.go", Old: "if n.Max != nil {\n\t\t\tWalk(v, n.Max)\n\t\t}", New: "", Expect: "walk-field/SliceExpr.Max"},
 			{Name: "double-walk-BinaryExpr.X", File: "ast/walk.go", Old: "Walk(v, n.X)\n\t\tWalk(v, n.Y)", New: "Walk(v, n.X)\n\t\tWalk(v, n.X)\n\t\tWalk(v, n.Y)", Expect: "walk-field/BinaryExpr.X"},
@@ -344,6 +345,18 @@ func (w *walkAnalysis) checkCase(u nodeType, cc *ast.CaseClause, multi bool) {
 			if len(g) == 0 && !w.isCommaOk(x) {
 				cond = w.normCond(x.Cond)
 				w.condStack = append(w.condStack, cond)
+			} else if len(g) > 0 {
+				// `n.Recv != nil && !n.IsClass`: the conjuncts that are not nil tests are conditions like any other
+				var rest []string
+				for _, cj := range conjuncts(x.Cond) {
+					if len(w.nilGuarded(cj)) == 0 {
+						rest = append(rest, w.normCond(cj))
+					}
+				}
+				if len(rest) > 0 {
+					cond = strings.Join(rest, " && ")
+					w.condStack = append(w.condStack, cond)
+				}
 			}
 			visit(x.Body)
 			guardStack = guardStack[:len(guardStack)-len(g)]
